@@ -3,46 +3,59 @@ PROP = dict(
         gens=['art'],
         lake=['IcyVerif.Props.C04'],
         ns='IcyVerif.C04',
-        theorems=['ansi_rt_partial₃', 'ansi_rt_partial₁', 'sgr_sync_16', 'subst_sound', 'trim_sound', 'csi_roundtrip', 'ansi_prep_core',
+        theorems=['ansi_rt_partial₄', 'sgr_sync_all', 'insert_resolves', 'xterm_lookup_sound', 'subst_sound_all', 'trim_sound_all',
+                  'ansi_rt_partial₃', 'ansi_rt_partial₁', 'sgr_sync_16', 'subst_sound', 'trim_sound', 'csi_roundtrip', 'ansi_prep_core',
                   'showEq_img', 'showEq_blank', 'bom_counterexample'],
         harness='c04',
         design='DESIGN.md §4 C04',
-        technique='Lean 4 proof for ALL pictures of the theorems\' shape (ansi_rt_partial₃: every combination of compression, cursor '
-                  'forward, repeat sequences, preserved line length and longer-terminal positioning; ansi_rt_partial₁: no compression, exact cells; 16 DOS foreground colours, 8 background '
-                  'colours - 16 in iCE mode -, blink / unlimited / iCE mode, SAUCE widths 1..=132, all attribute flags, all screen preparations and control-character modes): a simulation '
-                  'relation RelS between the writer\'s AnsiState and the reader\'s caret attribute, preserved by every block of '
-                  'get_color (reset, bold, faint, italic, underline, blink, concealed, crossed out, double underline, foreground, '
-                  'background: sgr_sync), the reader\'s CSI parameter parser shown inverse to the writer\'s number formatting '
-                  '(csi_read), the RLE / CUF / REP substitution shown sound (subst_sound: skipped cells are non-blinking spaces on colour 0 '
-                  'away from the margin), the end-of-line trimming shown sound (trim_sound), a general crop lemma, then induction over cells and rows on top of the format-independent screen theory shared with C15 '
-                  '(auto-wrap of full-width rows, crop_loaded_file, bold folding). Executable model of the whole StringGenerator '
-                  '(get_color, generate_cells incl. trimming, generate incl. RLE / CUF / REP, longer-terminal CSI y H, '
-                  'control-character handling, screen_prep / screen_end) tied byte-exactly to the crate over the full option lattice; '
-                  'reader model tied on writer output, row-mutated writer output and grammar-generated token streams; independent '
-                  'oracle Buffer::to_bytes("ans") -> Buffer::from_bytes on the real code comparing what is DISPLAYED',
+        technique='Lean 4 proof for ALL pictures of the theorems\' shape. ansi_rt_partial₄: ALL colours a buffer can hold - an arbitrary palette (any size, '
+                  'the 16 base colours may be replaced), arbitrary colour indices resolved through it, hence DOS colours, xterm-256 colours (38;5;n / 48;5;n), any '
+                  'other RGB value (CSI 1/0;r;g;b t) and bright backgrounds in blink / unlimited mode - x extended colours on / off x every combination of compression, cursor '
+                  'forward, repeat sequences, preserved line length and longer-terminal positioning x 3 screen preparations x 3 control-character modes x 3 ice modes, '
+                  'SAUCE widths 1..=132, all attribute flags the writer emits; conclusion: per cell the same character, displayed foreground RGB, background RGB and blink, '
+                  'each picture seen through its own palette. The simulation relation RelX relates the writer\'s AnsiState to the reader\'s caret attribute AND palette in '
+                  'RGB terms (the reader\'s index resolves in the reader\'s palette to the colour the state records; the palette only grows, all facts are monotone in it); '
+                  'it is preserved by every block of get_color (sgr_sync_all), the two colour blocks being described by the writer\'s decision (keep / DOS colour / '
+                  'xterm index / 24-bit) and the reader\'s matching action (select_graphic_rendition incl. parse_extended_colors, select_24bit_color, '
+                  'Palette::insert_color), in either order (SGR groups are read before 24-bit commands). Palette lemmas: insert_resolves (insert_color of the RGB the writer '
+                  'emitted resolves to it, old indices stay valid), xterm_lookup_sound (the writer\'s hash lookup into the regenerated XTERM_256_PALETTE returns an index '
+                  '0..=255 that holds exactly the colour). ansi_rt_partial₃ / ₁: the DOS palette only, with equal colour INDICES (₁: exact cells without compression). '
+                  'Shared: the reader\'s CSI parameter parser shown inverse to the writer\'s number formatting (csi_roundtrip), the RLE / CUF / REP substitution shown sound '
+                  '(subst_sound, subst_sound_all: skipped cells are non-blinking spaces on black away from the margin), the end-of-line trimming shown sound (trim_sound, '
+                  'trim_sound_all), a general crop lemma, induction over cells and rows on top of the format-independent screen theory shared with C15 (auto-wrap of '
+                  'full-width rows, crop_loaded_file, bold folding). Executable model of the whole StringGenerator tied byte-exactly to the crate over the full option '
+                  'lattice and over custom base palettes; reader model tied on writer output, row-mutated writer output, grammar-generated token streams and colour-table '
+                  'boundary token streams; independent oracle Buffer::to_bytes("ans") -> Buffer::from_bytes on the real code comparing what is DISPLAYED',
         rule='cases: the full lattice of 2^8 boolean save options (compress, cursor forward, repeat sequences, preserve line length, '
              'longer terminal, extended colours, lossless, normalize whitespaces) x 3 screen preparations x 3 control-character '
              'modes x 3 ice modes on 6 small pictures (runs of blanks inside / at the end of rows, bold / blink / concealed / '
-             'extended attributes, bright backgrounds, xterm-256 and RGB colours, full-width and width-1 rows) — every point in '
-             'thorough, a seeded sixth in quick; seeded pictures of height 1..=6 and 1..=60, width 80 or (with SAUCE) 1..=132, '
-             'whole CP437 range minus what the control-character mode cannot encode, palette of 16 + 0..3 extra colours, random '
-             'options; reader streams: writer output with rows dropped / duplicated / swapped / joined and tokens spliced in, and '
-             'token streams of the ANSI sub-language; oracle per cell: glyph, displayed foreground RGB (where the glyph has '
-             'foreground pixels; bold low colour = bright colour), background RGB (where it has background pixels), blink flag; '
-             'first failure of each key is minimised (greedy shrinker); distinct_nontrivial = distinct (options, picture)',
-        modelled='StringGenerator::get_color (AnsiState), generate_cells (end-of-line trimming), generate (cell loop with RLE / CUF / '
+             'extended attributes, bright backgrounds, xterm-256 and RGB colours, full-width and width-1 rows) - every point in '
+             'thorough, a seeded sixth in quick; COLOUR pictures in all 3 ice modes, with extended colours on and off, under 10 encodings in quick (default, plain, '
+             'everything on, seeded) and all 2^6 in thorough: 16x16 swatches using EVERY xterm-256 index as foreground, as background and both at once, a row in which '
+             'foreground and background change kind (xterm / DOS / RGB) in the same cell transition, the RGB values one step away from 29 palette colours (24-bit path), '
+             'all 16x16 DOS pairs (bright backgrounds in every ice mode), blank runs on extended / bright backgrounds, and CUSTOM BASE PALETTES (slots below 8 permuted / '
+             'duplicated, colour 0 not black); seeded pictures of height 1..=6 and 1..=60 (some with untouched rows at the bottom), width 80 or (with SAUCE) 1..=132, '
+             'whole CP437 range minus what the control-character mode cannot encode (one picture in twelve includes those characters: writer tie only), palette of '
+             '16 + 0..6 extra colours drawn from the ends of the xterm table, near-palette values and random RGB, one picture in four with a custom base palette, one in eight with runs of cells in other FONT PAGES (ANSI fonts 0..41 installed in buffer font slots 1..3, written as CSI 0;n SP D - oracle only, compared by the glyph bitmap of the cell\'s own font), random '
+             'options; reader streams: writer output with rows dropped / duplicated / swapped / joined and tokens spliced in, token streams of the ANSI sub-language, '
+             'and streams of 38;5;n / 48;5;n / 38;2 / 48;2 / CSI t tokens on the table boundaries (n = 0, 15, 16, 231, 232, 254, 255, 256, truncated groups); '
+             'oracle per cell: glyph, displayed foreground RGB (where the glyph has foreground pixels; bold low colour = bright colour), background RGB (where it has '
+             'background pixels), blink flag; first failure of each key is minimised (greedy shrinker incl. palette compaction); distinct_nontrivial = distinct '
+             '(options, picture)',
+        modelled='StringGenerator::get_color (AnsiState; DOS / xterm-256 / 24-bit colour decision), generate_cells (end-of-line trimming), generate (cell loop with RLE / CUF / '
                  'REP substitution, font page fixed 0, longer-terminal positioning, line-break rule incl. the one-blank shortcut), '
                  'CONTROL_CHARS handling, screen_prep / screen_end, push_result with unlimited line length, number formatting; '
-                 'ansi::Parser sub-language (SGR incl. 38/48 and palette insertion, CUF, REP, CUP, ED 2/3, ?33h/l, SCP/RCP, 24-bit '
-                 'colour, font selection, ESC <ctrl>), Caret::get_attribute (iCE), loader glue (SAUCE size / iCE flag, '
+                 'ansi::Parser sub-language (SGR incl. parse_extended_colors 38/48;5;n and 38/48;2;r;g;b with palette insertion, CUF, REP, CUP, ED 2/3, ?33h/l, SCP/RCP, '
+                 '24-bit colour CSI t, font selection, ESC <ctrl>), Caret::get_attribute (iCE), Palette::get_rgb / insert_color, loader glue (SAUCE size / iCE flag, '
                  'convert_ansi_to_utf8, bold folding, crop); tables (DOS palette, xterm-256 palette, COLOR_OFFSETS, '
-                 'CONTROL_CHARS) regenerated from the source',
-        not_modelled='output_line_length (CSI s / CR LF / CSI u line splitting), modern_terminal_output (UTF-8; excluded by the '
-                     'property), font pages other than 0, sixels, SAUCE record bytes (C11; the harness passes width / height / iCE '
-                     'flag), the colour optimiser (C12; the harness hands the model the optimised picture). Under a theorem: all '
-                     'combinations of compress / cursor forward / repeat sequences / preserve line length / longer-terminal positioning (up to 999 rows) / extended colours x 3 screen '
-                     'preparations x 3 control-character modes x 3 ice modes (16 fg x 8 bg DOS colours, 16 bg in iCE mode), width 80 or '
-                     'SAUCE width 1..=132. Correspondence + oracle only (no theorem yet): xterm-256 / RGB colours and backgrounds 8..15 '
-                     'outside iCE mode',
+                 'CONTROL_CHARS) regenerated from the source. UNDER A THEOREM (ansi_rt_partial₄): all of the above for every palette and every colour index, all '
+                 'combinations of compress / cursor forward / repeat sequences / preserve line length / longer-terminal positioning (up to 999 rows) / extended colours x 3 '
+                 'screen preparations x 3 control-character modes x 3 ice modes, width 80 or SAUCE width 1..=132, up to 10^6 rows',
+        not_modelled='output_line_length (CSI s / CR LF / CSI u line splitting), skip_lines, modern_terminal_output (UTF-8; excluded by the '
+                     'property), font pages other than 0 (CSI 0;n SP D is accepted by the reader model, never produced by the writer model; the display oracle covers them on the real code), sixels, SAUCE record bytes '
+                     '(C11; the harness passes width / height / iCE flag), the colour optimiser (C12; the harness hands the model the optimised picture). Not under a '
+                     'theorem: files that start with EF BB BF (known finding), the overline / invisible attribute bits (never emitted), blinking cells in iCE mode (iCE has '
+                     'no blink), colour indices with bit 31 set on the READER side (never produced). The proof of ansi_rt_partial₄ exposed two writer defects on custom base '
+                     'palettes (both repaired): SGR 1 after a palette slot below 8 that holds another DOS colour; blanks on colour 0 skipped / trimmed when colour 0 is not black',
         thorough_exhaustive=True,
     )
